@@ -1,4 +1,6 @@
 """C14 - combined broker model: merge is order-independent and unmerge is its inverse."""
+import random
+
 from ..core import Report
 from . import value_common as vc
 
@@ -33,5 +35,39 @@ def run(tier, seed):
     scripts = vc.gen_scripts(rep, "Gen_FimCBM", "MC_FimCBM", GEN, c, max_obs=50, timeout=3400)
     vc.run_and_validate(rep, "cbm", "harness.cbm_adapter.run_script", "Trace_FimCBM", scripts, [{}],
                         "all merge/unmerge/snapshot/rollback interleavings of the bound over families of delegation models")
+    # histories: the model identifies states that different histories reach (merge then unmerge = nothing happened), so
+    # the generated scripts replay shortest paths only; random long histories over the same families cover the rest
+    fams = {}
+    for sc in scripts:
+        if sc and sc[0]["op"] == "LoadFamily":
+            fams[vc.pipeline.jkey(sc[0])] = sc[0]
+    rng = random.Random(seed)
+    walks = []
+    for fam in [fams[k] for k in sorted(fams)]:
+        ids = sorted(fam["fam"])
+        nodes = sorted({x for i in ids for x in fam["fam"][i]["n"]})
+        for _ in range(12 if quick else 40):
+            merged, snap, w = set(), False, [fam]
+            for _ in range(rng.randint(6, 16)):
+                r = rng.random()
+                if r < 0.35 and len(merged) < len(ids):
+                    i = rng.choice([x for x in ids if x not in merged])
+                    w.append({"op": "Merge", "i": i})
+                    merged.add(i)                                  # (a refused merge is followed by an unmerge the model refuses too)
+                elif r < 0.65 and merged:
+                    i = rng.choice(sorted(merged))
+                    w.append({"op": "Unmerge", "i": i})
+                    merged.discard(i)
+                elif r < 0.72 and merged:
+                    w.append({"op": "Snapshot", "k": "k1"})
+                    snap = set(merged)
+                elif r < 0.78 and snap is not False and snap:
+                    w.append({"op": "Rollback", "k": "k1"})
+                    merged, snap = set(snap), False
+                else:
+                    w.append({"op": "GetDelegations", "x": rng.choice(nodes), "i": rng.choice(ids), "t": rng.choice(["cap", "lab"])})
+            walks.append(w)
+    vc.run_and_validate(rep, "cbm", "harness.cbm_adapter.run_script", "Trace_FimCBM", walks, [{}],
+                        "random merge/unmerge/snapshot/rollback histories (6-16 steps) over the same families")
     rep.extra["exhaustive"] = True
     return rep
